@@ -13,3 +13,7 @@
     if (*p == *expected) { *p = desired; return 1; } *expected = *p; return 0; }
 AT_DEF(8) AT_DEF(16) AT_DEF(32) AT_DEF(64)
 void __at_fence(int order) {}
+void *__at_loadp(void **p, int order) { return *p; }
+void __at_storep(void **p, void *v, int order) { *p = v; }
+void *__at_xchgp(void **p, void *v, int order) { void *o = *p; *p = v; return o; }
+_Bool __at_casp(void **p, void **expected, void *desired, int so, int fo, int weak) { if (*p == *expected) { *p = desired; return 1; } *expected = *p; return 0; }
